@@ -33,7 +33,7 @@ using namespace nodesim;
 
 namespace {
 
-enum COp { C_RECEIVE = 0, C_MINE, C_REORG, C_CREATE, C_LOCK, C_UNLOCK, C_NEWADDR, C_CLOCK, C_NOPS };
+enum COp { C_RECEIVE = 0, C_MINE, C_REORG, C_CREATE, C_LOCK, C_UNLOCK, C_NEWADDR, C_CLOCK, C_NOPS, C_SWEEPMANY = 50 };
 
 // C_CREATE arguments
 enum { CA_SEED = 0, CA_NREC, CA_FLAGS, CA_SFFO, CA_FEERATE, CA_CHANGE, CA_AMOUNT, CA_PRESET, CA_DEPTH, CA_AFTER };
@@ -71,6 +71,7 @@ std::string Describe(const Op& op)
     case C_UNLOCK: snprintf(b, sizeof b, "unlock(%s, sel=%ld)", op.arg(0) ? "all" : "one", (long)op.arg(1)); break;
     case C_NEWADDR: snprintf(b, sizeof b, "getnewaddress(type=%ld)", (long)op.arg(0)); break;
     case C_CLOCK: snprintf(b, sizeof b, "clock += %lds", (long)op.arg(0)); break;
+    case C_SWEEPMANY: snprintf(b, sizeof b, "create a transaction sweeping every small confirmed wallet coin (hundreds of inputs) at %ld sat/kvB, fee subtracted from the recipient", (long)op.arg(0)); break;
     default: snprintf(b, sizeof b, "?");
     }
     return b;
@@ -222,6 +223,14 @@ Plan Gen(uint64_t seed, Tier tier)
         default: break;
         }
         p.ops.push_back(op);
+    }
+    if (rng.chance(1, 8)) {
+        // a wallet with hundreds of small coins: a sweep of them has more than 252 inputs
+        Op rcv(C_RECEIVE, {(int64_t)rng.range(256, 320), (int64_t)(rng.next() >> 16), 0, 0});
+        Op mine(C_MINE, {100, (int64_t)(rng.next() >> 16), 0, 0});
+        Op sweep(C_SWEEPMANY, {(int64_t)rng.pick({1, 1, 1}) * 0 + (int64_t)(1000 + rng.below(4000)), (int64_t)(rng.next() >> 16)});
+        size_t at = rng.below(p.ops.size() / 2 + 1);
+        p.ops.insert(p.ops.begin() + at, {rcv, mine, sweep});
     }
     return p;
 }
@@ -529,22 +538,28 @@ struct CreateSim {
         ctx.evf("setup base=%d addrs=%zu maxtxfee=%ld fallback=%ld node_min=%ld", base, addrs.size(), (long)max_tx_fee, (long)fallback_fee, (long)node_min_feerate);
     }
 
+    std::vector<CScript> flood_spks;
     void OpReceive(const Op& op)
     {
         Rng r(mix64((uint64_t)op.arg(1), 0x72637631));
         std::vector<GenCoin> funds = GenCoins();
         if (funds.empty()) { ctx.ev("receive: stranger has no funds"); return; }
         GenCoin c = funds[r.below(funds.size())];
-        int nouts = (int)std::clamp<int64_t>(op.arg(0), 1, 6);
-        CAmount fee = 3000 + 1500 * (CAmount)op.mod(3, 4);
+        const bool flood = op.arg(0) >= 100; // hundreds of small outputs to the wallet in one transaction
+        int nouts = flood ? (int)std::clamp<int64_t>(op.arg(0), 100, 330) : (int)std::clamp<int64_t>(op.arg(0), 1, 6);
+        CAmount fee = flood ? 40000 : 3000 + 1500 * (CAmount)op.mod(3, 4);
         CAmount left = c.coin.value - fee;
         std::vector<CTxOut> outs;
         for (int i = 0; i < nouts; ++i) {
             // log-uniform from 600 sat to a few coins
             int bits = (int)r.range(10, 29);
             CAmount v = std::max<CAmount>(600, (CAmount)r.range(int64_t(1) << (bits - 1), int64_t(1) << bits));
+            if (flood) v = (CAmount)r.range(20000, 60000);
             if (v + 20000 > left) break;
-            outs.emplace_back(v, WalletSpk(r, (op.arg(2) & 1) != 0 && i == 0));
+            // (flood: P2WPKH addresses only - with low-R signatures the wallet's size estimate of the sweep is exact to a fraction of a vbyte;
+            //  taproot key spends are estimated with a 65-byte signature and would hide a few vbytes)
+            if (flood) { if (flood_spks.size() < 8) flood_spks.push_back(NewAddr(2).spk); outs.emplace_back(v, flood_spks[r.below(flood_spks.size())]); }
+            else outs.emplace_back(v, WalletSpk(r, (op.arg(2) & 1) != 0 && i == 0));
             left -= v;
         }
         if (outs.empty()) { ctx.ev("receive: coin too small"); return; }
@@ -1136,6 +1151,29 @@ struct CreateSim {
             ctx.probe(is_signed ? "signed_after_creation" : "signing_after_creation_incomplete");
         }
         Judge(q, v, final_tx, change_pos, is_signed, what);
+        if (!change_pos && !any_sffo && !q.allow_other && q.sign && reported_fee > 2000 && (op.arg(CA_AFTER) / AF_NMODES) % 2 == 0) {
+            // no change output: what is left over went into the fee. The same request under a maximum fee one satoshi below what was
+            // just paid must be refused, or answered with a cheaper transaction - never with one that pays more than the maximum.
+            const CAmount saved = w->m_default_max_tx_fee;
+            w->m_default_max_tx_fee = reported_fee - 1;
+            CAmount fee2 = -1;
+            try {
+                auto res2 = wallet::CreateTransaction(*w, vec, want_pos, cc, q.sign);
+                if (res2) {
+                    Register(res2->tx);
+                    CAmount in2 = 0, out2 = 0;
+                    bool all_known = true;
+                    for (auto& in : res2->tx->vin) { auto ko = KnownOutput(in.prevout); if (ko) in2 += ko->nValue; else all_known = false; }
+                    for (auto& o : res2->tx->vout) out2 += o.nValue;
+                    if (all_known) fee2 = in2 - out2;
+                }
+            } catch (const std::exception&) {
+            }
+            w->m_default_max_tx_fee = saved;
+            Settle();
+            ctx.probe("recreated_under_max_fee_just_below_fee_paid");
+            if (fee2 > reported_fee - 1) ctx.failf("fee-above-max-tx-fee", "%s: with the maximum transaction fee set to %ld the wallet created a transaction paying %ld", what.c_str(), (long)(reported_fee - 1), (long)fee2);
+        }
         if (q.must_fail) ctx.failf("created-although-it-cannot-be-funded", "%s: %s", what.c_str(), q.must_fail);
         last_result_hash = final_tx->GetHash().ToUint256().GetUint64(0);
         if (want_pos && change_pos && *want_pos != *change_pos) ctx.probe("change_pos_not_as_requested");
@@ -1166,6 +1204,44 @@ struct CreateSim {
         }
     }
 
+    /** Every small confirmed coin of the wallet as preset inputs, one recipient who pays the fee, explicit feerate: the fee actually paid
+     *  must cover the requested feerate on the signed size (the size estimate has to get the input-count encoding right). */
+    void OpSweepMany(const Op& op)
+    {
+        View v = MakeView();
+        wallet::CCoinControl cc;
+        cc.m_allow_other_inputs = false;
+        const CFeeRate rate{(CAmount)std::clamp<int64_t>(op.arg(0), 1000, 100000)};
+        cc.m_feerate = rate;
+        cc.fOverrideFeeRate = true;
+        CAmount total = 0;
+        size_t n = 0;
+        for (const MCoin& c : ModelCoins(v)) {
+            if (c.depth < 1 || c.coinbase || c.is_locked || c.value > 100000) continue;
+            cc.Select(c.op);
+            total += c.value;
+            ++n;
+        }
+        if (n < 253) { ctx.evf("sweep-many: only %zu small coins", n); return; }
+        Rng r(mix64((uint64_t)op.arg(1), 0x73776d));
+        std::vector<wallet::CRecipient> vec{wallet::CRecipient{WalletNode::DestFor(Keys().Spk(SK::P2WPKH, (int)r.below(N_KEYS))), total, /*fSubtractFeeFromAmount=*/true}};
+        auto res = wallet::CreateTransaction(*w, vec, std::nullopt, cc, /*sign=*/true);
+        Settle();
+        if (!res) { ctx.evf("sweep-many failed: %s", util::ErrorString(res).original.c_str()); ctx.probe("sweep_many_failed"); return; }
+        CTransactionRef tx = res->tx;
+        Register(tx);
+        ctx.probe("created_with_more_than_252_inputs");
+        ctx.nontrivial = true;
+        CAmount out = 0;
+        for (auto& o : tx->vout) out += o.nValue;
+        const CAmount fee = total - out;
+        const int64_t vsize = GetVirtualTransactionSize(*tx);
+        if (tx->vin.size() != n) ctx.failf("inputs-not-the-supplied-ones", "sweep of %zu supplied coins has %zu inputs", n, tx->vin.size());
+        if (fee * 1000 < rate.GetFeePerK() * vsize) ctx.failf("fee-below-requested-feerate", "sweep of %zu inputs: fee %ld for %ld vbytes is below the requested %ld sat/kvB", n, (long)fee, (long)vsize, (long)rate.GetFeePerK());
+        if (fee > w->m_default_max_tx_fee) ctx.failf("fee-above-max-tx-fee", "sweep of %zu inputs pays %ld, -maxtxfee is %ld", n, (long)fee, (long)w->m_default_max_tx_fee);
+        ctx.evf("sweep-many nin=%zu fee=%ld vsize=%ld", n, (long)fee, (long)vsize);
+    }
+
     void Exec(const Op& op)
     {
         switch (op.kind) {
@@ -1176,6 +1252,7 @@ struct CreateSim {
         case C_LOCK: OpLock(op); break;
         case C_UNLOCK: OpUnlock(op); break;
         case C_NEWADDR: NewAddr(op.mod(0, 4)); ctx.ev("newaddr"); break;
+        case C_SWEEPMANY: OpSweepMany(op); break;
         case C_CLOCK:
             cs.now += std::clamp<int64_t>(op.arg(0), 1, 100000);
             SetMockTime(std::chrono::seconds{cs.now});
